@@ -25,6 +25,7 @@ class Driver:
             return app
         self.app = self.loop.run_until_complete(mk())
         self.ez = self.app._ezsp
+        self.ez.add_callback(self.app.ezsp_callback_handler)      # as ControllerApplication.connect() does
         self.log = []
         self.steps = []
         self.mark = 0
@@ -139,17 +140,29 @@ class Driver:
             self.end(("reply", rid, 0))
         return True
 
-    def confirm(self, dst, tag, ok):
-        import bellows.types as t
-        aps = t.EmberApsFrame()
-        mt = t.EmberOutgoingMessageType.OUTGOING_DIRECT
-        if self.version >= 14:
-            args = [t.sl_Status.OK if ok else t.sl_Status.ZIGBEE_DELIVERY_FAILED, mt, t.NWK(dst), aps, t.uint8_t(tag), b""]
+    def confirm(self, dst, tag, ok, hi=0):
+        """messageSentHandler as the NCP sends it: the callback FRAME (independent byte-level encoder, layouts from the
+        EZSP reference: pre-v14 one-byte tag and status after it, v14 status first and a two-byte tag) through the
+        real frame_received; `hi` is the upper byte of the v14 tag (a confirmation for another message whose tag
+        shares the low byte)"""
+        import struct
+        v = self.version
+        aps = struct.pack("<HHBBHHB", 0x0104, 6, 1, 1, 0, 0, tag & 0xFF)
+        seq = 0x5A
+        if v == 4:
+            hdr = bytes([seq, 0x90, 0x3F])
+        elif v < 8:
+            hdr = bytes([seq, 0x90, 0xFF, 0x00, 0x3F])
         else:
-            args = [mt, t.EmberNodeId(dst), aps, t.uint8_t(tag), t.EmberStatus.SUCCESS if ok else t.EmberStatus.DELIVERY_FAILED, b""]
-        self.app.ezsp_callback_handler("messageSentHandler", args)
+            hdr = bytes([seq, 0x90, 0x01, 0x3F, 0x00])
+        if v >= 14:
+            body = struct.pack("<IBH", 0 if ok else 0x0C02, 0, dst) + aps + struct.pack("<H", (tag & 0xFF) | (hi << 8)) + b"\x00"
+        else:
+            body = struct.pack("<BH", 0, dst) + aps + bytes([tag & 0xFF, 0x00 if ok else 0x66]) + b"\x00"
+        self.ez.frame_received(hdr + body)
         self.loop.settle()
-        self.end(("confirm", dst, tag, 1 if ok else 0))
+        eff_tag = (tag & 0xFF) | ((hi << 8) if v >= 14 else 0)
+        self.end(("confirm", dst, eff_tag, 1 if ok else 0))
 
     def next_timer_owner(self):
         """which request the earliest timer belongs to"""
@@ -221,7 +234,12 @@ def run_script(version, script):
                     d.confirm(0x7777, 0x42, op[2])
                 else:
                     e = sends[op[1] % len(sends)]
-                    d.confirm(e[3] if op[3] == 0 else e[3] ^ 1, e[4] if op[3] != 2 else (e[4] + 1) % 256, op[2])
+                    if op[3] == 3:
+                        # same destination, same low tag byte, another upper byte: a different message on v14 (16-bit tags);
+                        # before v14 the tag has one byte and this IS the request's own confirmation
+                        d.confirm(e[3], e[4], op[2], hi=1)
+                    else:
+                        d.confirm(e[3] if op[3] == 0 else e[3] ^ 1, e[4] if op[3] != 2 else (e[4] + 1) % 256, op[2])
             elif k == "timer":
                 d.timer()
             elif k == "cancel":
@@ -287,6 +305,9 @@ class Check(PropertyCheck):
                 [("send", "broadcast", 0xFFFC, False, False), ("reply", 0)],
                 [("send", "broadcast", 0xFFFC, False, False), ("reply", 2, 0)],
                 [("send", "ieee", 0x1003, False, False), ("reply", 0), ("confirm", 0, 1, 0)],
+                # v14: a confirmation whose 16-bit tag shares only the low byte with the pending request's
+                [("send", "unicast", 0x1000, False, False), ("reply", 0), ("confirm", 0, 1, 3), ("timer",)],
+                [("send", "unicast", 0x1000, False, False), ("reply", 0), ("confirm", 0, 1, 3), ("confirm", 0, 0, 0)],
                 # a confirmation carrying the (destination, tag) of a request that is still waiting for the lock
                 [("send", "ieee", 0x1002, True, False), ("send", "ieee", 0x1003, True, False), ("reply", 0, 1), ("confirm", 1, 1, 2)],
                 [("send", "unicast", 0x1000, False, False), ("cancel", 0)],
@@ -307,7 +328,7 @@ class Check(PropertyCheck):
                     elif x < 0.6:
                         s.append(("reply", rng.choice([0, 0, 0, 1, 1, 2]), rng.randrange(3)))
                     elif x < 0.82:
-                        s.append(("confirm", rng.choice([0, 1, 2, "foreign"]), rng.choice([1, 1, 0]), rng.choice([0, 0, 0, 1, 2])))
+                        s.append(("confirm", rng.choice([0, 1, 2, "foreign"]), rng.choice([1, 1, 0]), rng.choice([0, 0, 0, 1, 2, 3])))
                     elif x < 0.94:
                         s.append(("timer",))
                     else:
